@@ -103,16 +103,20 @@ def judge(ctx, cases, traces):
         case = by_id[t['id']]
         what = {'law': 'returned tree is not Expand(args) of the single-channel results',
                 'count': 'units created differ from one per combination',
+                'args_mutated': 'the call changed the caller\'s argument objects',
+                'args_mutated_by_second_call': 'the repeated call changed the caller\'s argument objects',
                 'op_direct': 'a number/unit combination is not the operator unit on (x, y) in operand order',
                 'direct': 'a directly delegating constructor did not create exactly cls.rate(inputs) per combination',
                 'out_flat': 'output units did not receive the flattened channel array',
                 'silence': 'literal zeros were not replaced by one audio-rate silence',
                 'raised': 'the output call raised'}.get(why, why)
-        e = t['ev'][0]
-        ctx.violation('mce:%s:%s' % (why, tname(case['target'])),
-                      '%s [%s] for %s' % (what, why, tname(case['target'])),
-                      dict(kind='case', case=case, why=why,
-                           observed=dict(res=e['res'], n=e['n'], units=e['units'][:12], tab=e['tab'][:12])))
+        e = t['ev'][at - 1]
+        again = ' (same call repeated with the same argument objects)' if at == 2 else ''
+        ctx.violation('mce:%s%s:%s' % (why, ':again' if at == 2 and not why.startswith('args_') else '', tname(case['target'])),
+                      '%s [%s] for %s%s' % (what, why, tname(case['target']), again),
+                      dict(kind='case', case=case, why=why, event=at,
+                           observed=dict(res=e['res'], n=e['n'], units=e['units'][:12], after=e['after'],
+                                         tab=t['ev'][0]['tab'][:12])))
 
 
 def methods_of_channel_list(ctx):
